@@ -362,7 +362,8 @@ fn model_bound(prop: &str, k: usize, tier: &str) -> Option<usize> {
     }
     let w = c19_workers(k);
     match (tier, w) {
-        ("thorough", 0..=2) => None,
+        // (unbounded exploration of the two-worker models did not finish within an hour)
+        ("thorough", 0..=2) => Some(6),
         ("thorough", 3) => Some(4),
         ("thorough", _) => Some(3),
         (_, 0..=2) => Some(4),
@@ -464,7 +465,7 @@ fn parent(prop: &str, tier: &str, out: &str, only: Option<usize>) {
     let next = AtomicUsize::new(0);
     let results: StdMutex<Vec<(usize, Option<J>, Option<i32>, f64)>> = StdMutex::new(vec![]);
     let nthreads = std::thread::available_parallelism().map(|n| n.get()).unwrap_or(4);
-    let timeout_s: u64 = std::env::var("LOOMCHECK_TIMEOUT").ok().and_then(|s| s.parse().ok()).unwrap_or(if tier == "thorough" { 3000 } else { 240 });
+    let timeout_s: u64 = std::env::var("LOOMCHECK_TIMEOUT").ok().and_then(|s| s.parse().ok()).unwrap_or(if tier == "thorough" { 1500 } else { 240 });
     std::thread::scope(|sc| {
         for _ in 0..nthreads {
             sc.spawn(|| loop {
